@@ -30,8 +30,8 @@ pub struct GuardBuf {
     len: Cell<usize>,
     borrow: RefCell<()>,
     grow_count: Cell<usize>,
-    /// refuse the growing realloc with this ordinal (0-based), if any
-    pub refuse_at: Cell<Option<usize>>,
+    /// refuse every growing realloc while set (the harness sets it for the duration of one step)
+    pub refuse_now: Cell<bool>,
 }
 
 struct SharedGuard<'a> {
@@ -83,7 +83,7 @@ impl GuardBuf {
                 len: Cell::new(initial.len()),
                 borrow: RefCell::new(()),
                 grow_count: Cell::new(0),
-                refuse_at: Cell::new(None),
+                refuse_now: Cell::new(false),
             }
         }
     }
@@ -131,7 +131,7 @@ unsafe impl UnsizedTypeDataAccess for GuardBuf {
         if new_len > cur {
             let k = this.grow_count.get();
             this.grow_count.set(k + 1);
-            if this.refuse_at.get() == Some(k) {
+            if this.refuse_now.get() {
                 return Err(Error::from(ProgramError::InvalidRealloc));
             }
         }
